@@ -4,6 +4,7 @@ mod corpus;
 mod drops;
 mod explore;
 mod families;
+mod halloc;
 mod faults;
 mod interp;
 mod menu;
@@ -15,6 +16,9 @@ mod seqchecks;
 mod shapes;
 mod spec;
 mod world;
+
+#[global_allocator]
+static GLOBAL: halloc::HAlloc = halloc::HAlloc;
 
 fn main() {
 	rt::quiet_panics();
